@@ -184,3 +184,27 @@ NOT_APPLICABLE = {
 }
 
 PENDING = 'static rule set for this property is not built yet in this tree (see DESIGN §8 build order)'
+
+# ---- round 9 additions (appended to the texts above so that MANIFEST names every registered rule's clause)
+_R9_LAST_PIECE = (' Round 9: LAST-PIECE - while an observer decides by the text of the last piece of a rope (ends_with, asked by '
+                  'get_generated_source_info and the replay of a cached source), every function that grows a rope in place stores a fresh '
+                  'piece as the last one only under a test that it is not empty (pieces taken over from another rope are covered by '
+                  'induction); not decided: ropes built by slicing / lines().')
+_R9_NAME_SIBLING = (' Round 9: NAME-SIBLING - the pieces into which a composite cuts one child chunk, each forwarded with the child\'s own '
+                    'original position, pass the child\'s name index through the same conditions (an extra filter on one piece makes an '
+                    'empty insertion inside a named chunk change which characters carry the name).')
+_R9_FIELD_RESET = (' Round 9: VLQ-FIELD-RESET - the base64-VLQ reader advances its field counter only on paths that reset the shift position '
+                   '(and the accumulator) to 0 before the next digit is read, or that are taken only when the shift position is 0: redundant '
+                   'continuation digits of one field ("gA" is a legal zero) cannot leak into the next field.')
+_R9_POSITION = (' Round 9: the input assumption POSITION-ADD listed for ReplaceSource\'s three column additions ("positions of a source '
+                'streamed with text are real") was refuted by an independent finding on the unchanged tree (an inner ReplaceSource hands '
+                'out a column wrapped below zero); the assumption was removed, the rule then reported the three sites, defect F14 fixed in '
+                '/repo 152bcc2 (wrapping addition).')
+for _p, _t in (('C04', _R9_LAST_PIECE), ('C10', _R9_LAST_PIECE), ('C13', _R9_LAST_PIECE), ('C13', _R9_NAME_SIBLING),
+               ('C06', _R9_NAME_SIBLING), ('C12', _R9_FIELD_RESET), ('C08', _R9_FIELD_RESET), ('C17', _R9_POSITION)):
+    CLAIMS[_p]['text'] += _t
+for _p, _t in (('C04', '; non-emptiness dominance for in-place rope growth'), ('C10', '; non-emptiness dominance for in-place rope growth'),
+               ('C13', '; non-emptiness dominance for in-place rope growth; sibling agreement of name conditions'),
+               ('C06', '; sibling agreement of name conditions'), ('C12', '; must-reset path analysis of the VLQ reader state'),
+               ('C08', '; must-reset path analysis of the VLQ reader state')):
+    CLAIMS[_p]['technique'] += _t
